@@ -169,6 +169,44 @@ func suiteTiming(args []string) {
 		mc.mu.Unlock()
 		mc.peerClose()
 	}()
+	// (f) a slow operation handler: the write deadline is armed when the response is about to be written,
+	// not when the request arrived - the response is delivered although the handler took longer than WriteTimeout
+	for _, slow := range []time.Duration{T / 2, 3 * T / 2} {
+		func() {
+			s := &kmip.Server{ReadTimeout: T, WriteTimeout: T, Log: log.New(io.Discard, "", 0)}
+			s.Handle(kmip.OPERATION_GET, func(req *kmip.RequestContext, item *kmip.RequestBatchItem) (interface{}, error) {
+				time.Sleep(slow)
+				return kmip.GetResponse{UniqueIdentifier: "slow"}, nil
+			})
+			ts := &timingServer{srv: s, lis: newMemListener(), served: make(chan error, 1)}
+			init := make(chan struct{})
+			go func() { ts.served <- s.Serve(ts.lis, init) }()
+			<-init
+			defer ts.stop()
+			mc := newMemConn("f")
+			ts.lis.ch <- acceptResult{conn: mc}
+			greq := kmip.Request{Header: kmip.RequestHeader{Version: kmip.ProtocolVersion{Major: 1, Minor: 4}, BatchCount: 1},
+				BatchItems: []kmip.RequestBatchItem{{Operation: kmip.OPERATION_GET, RequestPayload: kmip.GetRequest{UniqueIdentifier: "k"}}}}
+			_, gb := implEncode(&greq)
+			mc.peerSend(gb)
+			ok := mc.waitUntil(slow+2*time.Second, func() bool { return len(splitMessages(mc.out)) >= 1 || mc.localClosed })
+			rep.Evaluations++
+			if !ok || len(splitMessages(mc.out)) < 1 {
+				viol("deadline", map[string]interface{}{"scenario": "slow handler", "handler_ms": slow.Milliseconds(), "write_timeout_ms": T.Milliseconds(),
+					"what": "the response of a handler that took a while was not delivered although the peer was reading: the write deadline was not armed afresh before the response"})
+			}
+			for _, e := range mc.snapshot() {
+				if e.kind == "armw" {
+					d := e.dl.Sub(e.at)
+					if d < T-50*time.Millisecond || d > T+50*time.Millisecond {
+						viol("deadline", map[string]interface{}{"scenario": "slow handler", "what": "write deadline is not (time of arming) + WriteTimeout", "handler_ms": slow.Milliseconds(), "delta_ms": d.Milliseconds(), "timeout_ms": T.Milliseconds()})
+						break
+					}
+				}
+			}
+			mc.peerClose()
+		}()
+	}
 	rep.Nontrivial = rep.Evaluations
 	rep.emit()
 }
